@@ -12,7 +12,8 @@ Content(p) == [k \in {<<p[i][1], p[i][2]>> : i \in 1..Len(p)} |->
                  IN [ttl |-> p[i][3], rds |-> ToSetOf(p[i][4])]]
 Proj(w) == {<<k[1], k[2], w[k].ttl, w[k].rds>> : k \in DOMAIN w}
 LogProj(p) == {<<p[i][1], p[i][2], p[i][3], ToSetOf(p[i][4])>> : i \in 1..Len(p)}
-NormVal(v) == IF v[1] = "rds" THEN <<"rds", v[2], ToSetOf(v[3])>> ELSE v
+NormVal(v) == IF v[1] = "rds" THEN <<"rds", v[2], ToSetOf(v[3])>>
+              ELSE IF v[1] \in {"names", "node"} THEN <<v[1], ToSetOf(v[2])>> ELSE v
 
 TraceInit ==
     /\ RegInit
@@ -49,6 +50,12 @@ TGet == /\ e.op = "get" /\ Get(e.inzone, e.name, e.type)
         /\ Outcome /\ Check(t, l, "ReadValue", NormVal(e.val) = val') /\ State /\ Adv
 TExists == /\ e.op = "exists" /\ Exists(e.inzone, e.name)
            /\ Outcome /\ Check(t, l, "ReadValue", e.val = val') /\ State /\ Adv
+TGetNode == /\ e.op = "getnode" /\ GetNode(e.inzone, e.name)
+            /\ Outcome /\ Check(t, l, "ReadValue", NormVal(e.val) = val') /\ State /\ Adv
+TNames == /\ e.op = "names" /\ IterNames
+          /\ Outcome /\ Check(t, l, "ReadValue", NormVal(e.val) = val') /\ State /\ Adv
+TChanged == /\ e.op = "changed" /\ e.res = "ok" /\ Changed(e.val[2])
+            /\ State /\ Adv
 TCallback == /\ e.op = "cbraise" /\ CallbackRaises
              /\ Outcome /\ State /\ Adv
 TEnd == /\ e.op = "end"
@@ -64,7 +71,7 @@ TAfter == /\ e.op = "after" /\ UseAfterEnd
 TraceNext ==
     /\ l <= Len(Ev(t))
     /\ \/ TInitEv \/ TBegin \/ TAdd \/ TReplace \/ TDelName \/ TOutZone \/ TDelType \/ TDelRds
-       \/ TSerial \/ TGet \/ TExists \/ TCallback \/ TEnd \/ TAfter
+       \/ TSerial \/ TGet \/ TExists \/ TGetNode \/ TNames \/ TChanged \/ TCallback \/ TEnd \/ TAfter
 
 Accepted == Accepting(t, l)
 =============================================================================
